@@ -6,6 +6,7 @@ require (
 	github.com/aptpod/iscp-go v0.0.0
 	github.com/aptpod/iscp-proto v0.0.0-20230808235245-fada26057efa
 	github.com/coder/websocket v1.8.12
+	github.com/gogo/protobuf v1.3.2
 	github.com/google/uuid v1.3.0
 	github.com/gorilla/websocket v1.4.2
 	github.com/quic-go/quic-go v0.50.0
@@ -14,7 +15,6 @@ require (
 )
 
 require (
-	github.com/gogo/protobuf v1.3.2 // indirect
 	github.com/quic-go/qpack v0.5.1 // indirect
 	github.com/quic-go/webtransport-go v0.8.1-0.20241018022711-4ac2c9250e66 // indirect
 	golang.org/x/crypto v0.35.0 // indirect
